@@ -43,8 +43,10 @@ def generate(ck):
     rng = ck.rng
     n = 400 if ck.tier == "quick" else 40000
     descs = [{"oil": [200.0, 35.0, 0.8, 650.0]}, {"oil": [80.0, 12.0, 1.3, 20.0 * 3]}, {"oil": [350.0, 55.0, 0.56, 2500.0]}]
-    for _ in range(n):
+    for i in range(n):
         descs.append({"oil": wl.oil_params(rng)})
+        if i % 60 == 11:
+            descs.append({"oil": wl.oil_params(rng), "threads": [wl.oil_params(rng) for _ in range(3)]})
     return descs
 
 
@@ -53,6 +55,12 @@ def run_case(ck, desc):
 
     T, api, gg, gor = desc["oil"]
     a = (api, gg, gor)
+    if desc.get("threads"):
+        # the correlations called from four threads at once, each with its own oil
+        sets = [desc["oil"]] + desc["threads"]
+        pbs = [float(oil.pressure_bubblepoint_Standing(*o)) for o in sets]
+        P = np.array([15.0, 0.5 * min(pbs), min(pbs), 0.5 * (min(pbs) + max(pbs)), max(pbs), 1.7 * max(pbs)])
+        wl.judge_thread_groups(ck, desc, wl.correlation_thread_groups(sets, [(150.0 + 40 * k, 3.0 * k) for k in range(4)], P))
     pb = oil.pressure_bubblepoint_Standing(T, api, gg, gor)
     if not pb > 50:
         return False, {"pb": pb}
